@@ -3217,6 +3217,15 @@ class SEVM:
                             cond = dst.as_z3() == target
                             new_ex = self.create_branch(ex, cond, target)
                             stack.push(new_ex)
+
+                        # the destination may also be none of the valid jump destinations,
+                        # in which case the current path halts with an invalid jump
+                        invalid_cond = And(
+                            *[dst.as_z3() != target for target in ex.pgm.valid_jumpdests()]
+                        )
+                        if ex.check(invalid_cond) != unsat:
+                            ex.path.append(invalid_cond)
+                            raise InvalidJumpDestError(dst)
                     else:
                         raise NotConcreteError(f"symbolic JUMP target: {dst}")
 
